@@ -21,6 +21,11 @@ class BodyError(Exception):
     pass
 
 
+# exceptions an `async with` body can end with: the client's own, the user's, and those of OTHER connections
+BODY_EXC = [BodyError, RuntimeError, ValueError, KeyError, OSError, TimeoutError, ConnectionError, ConnectionResetError,
+            ConnectionRefusedError, ConnectionAbortedError, BrokenPipeError, asyncio.CancelledError, asyncio.TimeoutError, EOFError]
+
+
 class LifeRun:
     def __init__(self, scn: dict):
         self.scn = scn
@@ -176,10 +181,11 @@ class LifeRun:
                         elif a == "leave":
                             await api.__aexit__(None, None, None)
                         else:
+                            cls_ = BODY_EXC[self.rng.randrange(len(BODY_EXC))] if self.scn.get("vary_exc", True) else BodyError
                             try:
-                                raise BodyError("body failed")
-                            except BodyError as be:
-                                await api.__aexit__(BodyError, be, be.__traceback__)
+                                raise cls_("body failed")
+                            except BaseException as be:  # noqa: BLE001 - handed to __aexit__ exactly as `async with` would
+                                await api.__aexit__(type(be), be, be.__traceback__)
                     except Exception:  # noqa: BLE001
                         raised = True
                     eof = await self._eof_seen(n0)
